@@ -216,6 +216,118 @@ def spec_search(ctx, shim, model, groups, recs):
                          "glyph ids always compared, clusters too unless the font has a deleting lookup")
 
 
+
+# ------------------------------------------------------------------------------------------------
+# through shape(): the whole sentence of the property (plan + interpreter) against the OpenType model
+
+DEFAULT_ON = {"abvm", "blwm", "ccmp", "locl", "mark", "mkmk", "rlig", "calt", "clig", "curs", "dist", "kern", "liga", "rclt",
+              "ltra", "ltrm", "rand", "trak", "frac", "numr", "dnom"}       # default shaper, horizontal left-to-right
+GLOBAL_BIT = 0x80000000
+
+
+def plan_by_the_text(rec, user):
+    """The lookups the property prescribes for the default shaper, LTR, script DFLT, features `user` (tag -> 0/1):
+    the shaper's default features plus the user's, each found through the selected language system; the required feature of
+    that language system is always on; 'rvrn' forms its own first stage; within a stage lookup-list order, one entry per lookup.
+    A required feature runs in the stage of the features that carry its tag (stage 0 when the tag is not in use)."""
+    g = rec["gsub"]
+    feats = g["features"]
+    ls = (g.get("scripts") or [{"default": {"required": None, "features": list(range(len(feats)))}}])[0]["default"]
+    on = {t for t in DEFAULT_ON if user.get(t, 1) != 0} | {t for t, v in user.items() if v != 0}
+    stage_of = lambda tag: 0 if tag == "rvrn" else 1
+    stages = {0: set(), 1: set()}
+    req = ls.get("required")
+    if req is not None and req < len(feats):
+        rtag = feats[req]["tag"]
+        stages[stage_of(rtag) if (rtag in on or rtag == "rvrn") else 0] |= set(feats[req]["lookups"])
+    for tag in on | {"rvrn"}:
+        for fi in ls["features"]:                        # find_language_feature: first feature of the langsys with the tag
+            if fi < len(feats) and feats[fi]["tag"] == tag:
+                stages[stage_of(tag)] |= set(feats[fi]["lookups"])
+                break
+    nl = len(g["lookups"])
+    return [i for st in (0, 1) for i in sorted(stages[st]) if i < nl]
+
+
+def shape_spec_search(ctx, shim, model, r, nfonts, per_font):
+    import fontbuild
+    fonts = []
+    for k in range(nfonts):
+        rec = gsubgen.rand_recipe(r, types=(1, 2, 3, 4, 5, 6, 8))
+        feats = rec["gsub"]["features"]
+        nf = len(feats)
+        listed = [i for i in range(nf) if r.chance(3, 4)]
+        required = None
+        if r.chance(1, 2):
+            # a required feature: listed as well or not; with a tag the shaper knows or a made-up one
+            if r.chance(1, 3):
+                feats.append({"tag": r.choice(["zq01", "rvrn", "test"]), "lookups": sorted(set(r.sample(range(len(rec["gsub"]["lookups"])), 1)))})
+                required = len(feats) - 1
+            else:
+                required = r.below(nf)
+                if r.chance(1, 2) and required in listed:
+                    listed.remove(required)
+        rec["gsub"]["scripts"] = [{"tag": "DFLT", "default": {"required": required, "features": listed}, "langs": []}]
+        # duplicate tags are legal but make "the feature with that tag" ambiguous: keep tags distinct
+        if len({f["tag"] for f in feats}) != len(feats):
+            continue
+        try:
+            hexf = fontbuild.hexfont(rec)
+        except fontbuild.FontBuildError:
+            continue
+        fonts.append((f"H{k}", rec, hexf))
+    g_shape, g_spec, meta = [], [], []
+    for fid, rec, hexf in fonts:
+        ft = gsubgen.flatten(rec)
+        ls, lm, mm = [f"font {fid} {hexf}"], [f"font {fid} {hexf}"], []
+        tags = [f["tag"] for f in rec["gsub"]["features"]]
+        for _ in range(per_font):
+            user = {}
+            for t in tags:
+                if r.chance(1, 3):
+                    user[t] = r.choice([0, 1, 1])
+            fstr = ",".join(f"{gsubgen.tag_hex(t)}:{v}:0:4294967295" for t, v in sorted(user.items())) or "-"
+            order = plan_by_the_text(rec, user)
+            mt = str(len(order)) + "".join(f" {i} {GLOBAL_BIT} 1 1 0 0" for i in order)
+            n = rec["num_glyphs"]
+            k = r.range(1, 8)
+            gl = [r.range(1, n - 1) for _ in range(k)]
+            info = [(g, 0xFFFFFFF8, i, 0, 7) for i, g in enumerate(gl)]
+            st = {"L": 0, "F": 0, "M": max(64 * k, 16384), "O": max(1024 * k, 16384), "h": 0, "s": 0, "i": 0, "n": k,
+                  "o": 0, "I": info, "U": [(0, 0, 0, 0, 0)] * k}
+            text = ",".join(f"{0xE000 + g - 1:x}:{i}" for i, g in enumerate(gl))
+            ls.append(f"shape {fid} l DFLT - 0 0 {fstr} - - {text}")
+            lm.append(f"gsubspec {fid} l DFLT - {fstr} 1 FONT {ft} MAPS {mt} BUF {bufgen.state_str(st)}")
+            mm.append((rec, st, user, order))
+        g_shape.append(ls); g_spec.append(lm); meta.append(mm)
+    a = vlib.run_groups(shim, g_shape, timeout=300)
+    b = vlib.run_groups(model, g_spec, timeout=300)
+    n = indom = bad = reqd = 0
+    for ls, lm, mm, xs, ys in zip(g_shape, g_spec, meta, a, b):
+        for ln, sl, (rec, st, user, order), x, y in zip(ls[1:], lm[1:], mm, xs[1:], ys[1:]):
+            n += 1
+            ok, cmpcl = in_spec_domain(rec, st)
+            if not ok or not x.startswith("ok ") or not y.startswith("ok "):
+                continue
+            indom += 1
+            if rec["gsub"]["scripts"][0]["default"]["required"] is not None: reqd += 1
+            got = [tuple(int(v) for v in e.split(":")[:2]) for e in x.split()[2:]]
+            t = y.split()
+            want = [] if len(t) < 3 or t[2] == "-" else [tuple(int(v) for v in e.split(":")) for e in t[2].split(",")]
+            same = (got == want) if cmpcl else ([p[0] for p in got] == [p[0] for p in want])
+            if not same:
+                bad += 1
+                if bad <= 3:
+                    ctx.violation("shape(): GSUB result differs from the OpenType substitution model applied to the lookups the property prescribes",
+                                  {"stage": "search", "stream": "gsub-shape-spec", "font_line": ls[0], "request": ln, "spec_request": sl,
+                                   "recipe": rec, "user_features": user, "prescribed_lookup_order": order, "crate": got,
+                                   "spec_model": want, "clusters_compared": cmpcl})
+    ctx.note_search("gsub-shape-spec", n, indom, in_domain=indom, with_required_feature=reqd, deviations=bad,
+                    rule="generated GSUB/GDEF fonts with a DFLT language system that lists a subset of the features and may have a required "
+                         "feature (listed or not, known or unknown tag, 'rvrn'), global user features on/off, through the public shape(); "
+                         "expected = Spec.applyAll over the lookup order computed from the recipe by plan_by_the_text (stage 0: rvrn and "
+                         "required features of unused tags; then lookup-list order), on the spec's domain")
+
 def gsub_classify(ln, out):
     ks = []
     t = ln.split(" FONT ")[1].split(" MAPS ")[0]
@@ -240,8 +352,9 @@ def gsub_classify(ln, out):
 
 def run(ctx):
     ctx.assumptions += [
-        "part 1 only (buffer ⊑ list zipper): the lookup interpreter model (Gsub) is added later; until then the GSUB "
-        "sentence of the property is carried by the repository's own fixtures",
+        "the theorems are about the operational models Buf.lean / Gsub.lean and the declarative Spec/OpenTypeSubst.lean; the models are "
+        "tied to the crate by buf-walks and gsub-interp (hook level); the whole sentence incl. the plan (stages, lookup-list order, "
+        "required features) is checked through shape() by the gsub-shape-spec search against the executable specification",
     ]
     ctx.regen()
     ctx.prove(MODULE)
@@ -251,6 +364,7 @@ def run(ctx):
     groups, recs = gsub_groups(ctx, shim, ctx.rng("gsub"), ctx.budget(300, 6000), 8)
     gsub_panic_search(ctx, shim, groups)
     spec_search(ctx, shim, vlib.build_model(), groups, recs)
+    shape_spec_search(ctx, shim, vlib.build_model(), ctx.rng("shape-spec"), ctx.budget(250, 5000), 6)
     ctx.correspond("gsub-interp", groups=groups, classify=gsub_classify, canon=canon,
                    only=lambda ln: ln.startswith("gsub "))
 
